@@ -29,6 +29,13 @@ pub const MODULES: &[ModuleCfg] = &[
         may_use: &["LangId", "ExtType"],
         prelude: false,
     },
+    // the imperative part: loops, mutation, the subtag iterator
+    ModuleCfg {
+        name: "SrcParse",
+        imports: &["UnicLocale.Gen.Src", "UnicLocale.Gen.SrcExtType", "UnicLocale.Model.Locale"],
+        may_use: &["LangId", "ExtType", "UExt", "TExt", "ExtMap", "Locale"],
+        prelude: false,
+    },
 ];
 
 pub struct Target {
@@ -59,6 +66,9 @@ const TRANSFORM: &str = "unic-locale-impl/src/extensions/transform.rs";
 const PRIVATE: &str = "unic-locale-impl/src/extensions/private.rs";
 const EXTMOD: &str = "unic-locale-impl/src/extensions/mod.rs";
 const LIKELY: &str = "unic-langid-impl/src/likelysubtags/mod.rs";
+const LIPARSER: &str = "unic-langid-impl/src/parser/mod.rs";
+const LOCPARSER: &str = "unic-locale-impl/src/parser/mod.rs";
+const LOCLIB: &str = "unic-locale-impl/src/lib.rs";
 
 macro_rules! t {
     ($lean:expr, $module:expr, $file:expr, $imp:expr, $func:expr, $ty:expr, $model:expr, $gen:expr, $group:expr) => {
@@ -98,6 +108,18 @@ pub const TARGETS: &[Target] = &[
     t!("LangId.isOptionEmpty", "SrcMatch", LIB, None, "is_option_empty", "Option (List Bytes) → Bool", "UL.LangId.isOptionEmpty", &[("P", "TinyStr8")], "Match"),
     t!("LangId.subtagsMatch", "SrcMatch", LIB, None, "subtags_match", "Option (List Bytes) → Option (List Bytes) → Bool → Bool → Bool", "UL.LangId.subtagsMatch", &[("P", "TinyStr8")], "Match"),
     t!("LangId.isMatch", "SrcMatch", LIB, Some("LanguageIdentifier"), "matches", "LangId → LangId → Bool → Bool → Bool", "UL.LangId.isMatch", &[], "Match"),
+    // ---- loops, mutation, the subtag iterator (module SrcParse)
+    t!("LangId.parseIter", "SrcParse", LIPARSER, None, "parse_language_identifier_from_iter", "List Bytes → Bool → Res (LangId × List Bytes)", "UL.LangId.parseIter", &[], "Parse"),
+    t!("LangId.parse", "SrcParse", LIPARSER, None, "parse_language_identifier", "Bytes → Res LangId", "UL.LangId.fromBytes", &[], "Parse"),
+    t!("LangId.tryFromIter", "SrcParse", LIB, Some("LanguageIdentifier"), "try_from_iter", "List Bytes → Bool → Res (LangId × List Bytes)", "UL.LangId.parseIter", &[], "Parse"),
+    t!("LangId.fromBytes", "SrcParse", LIB, Some("LanguageIdentifier"), "from_bytes", "Bytes → Res LangId", "UL.LangId.fromBytes", &[], "Parse"),
+    t!("UExt.parseIter", "SrcParse", UNICODE, Some("UnicodeExtensionList"), "try_from_iter", "List Bytes → Res (UExt × List Bytes)", "UL.UExt.parseIter", &[], "Parse"),
+    t!("TExt.parseIter", "SrcParse", TRANSFORM, Some("TransformExtensionList"), "try_from_iter", "List Bytes → Res (TExt × List Bytes)", "UL.TExt.parseIter", &[], "Parse"),
+    t!("PExt.parseIter", "SrcParse", PRIVATE, Some("PrivateExtensionList"), "try_from_iter", "List Bytes → Res (List Bytes × List Bytes)", "(fun ts => (UL.PExt.parseIter ts).map (fun p => (p, [])))", &[], "Parse"),
+    t!("ExtMap.parseIter", "SrcParse", EXTMOD, Some("ExtensionsMap"), "try_from_iter", "List Bytes → Res (ExtMap × List Bytes)", "(fun ts => (UL.ExtMap.parseIter ts).map (fun m => (m, [])))", &[], "Parse"),
+    t!("ExtMap.fromBytes", "SrcParse", EXTMOD, Some("ExtensionsMap"), "from_bytes", "Bytes → Res ExtMap", "UL.ExtMap.fromBytes", &[], "Parse"),
+    t!("Locale.parse", "SrcParse", LOCPARSER, None, "parse_locale", "Bytes → Res Locale", "UL.Locale.fromBytes", &[], "Parse"),
+    t!("Locale.fromBytes", "SrcParse", LOCLIB, Some("Locale"), "from_bytes", "Bytes → Res Locale", "UL.Locale.fromBytes", &[], "Parse"),
     // Stretch items: registered so that the report says precisely why they are not translated
     // (tuples, `unsafe`, integer packing and table look-ups are outside the subset).
     t!("Likely.maximize", "Src", LIKELY, None, "maximize", "(stretch: look-ups as parameters)", "UL.Likely.maximize", &[], "Likely"),
@@ -116,6 +138,11 @@ pub const FILES: &[&str] = &[
     PRIVATE,
     EXTMOD,
     LIKELY,
+    LIPARSER,
+    LOCPARSER,
+    LOCLIB,
+    "unic-langid-impl/src/errors.rs",
+    "unic-locale-impl/src/errors.rs",
     "unic-langid-impl/src/parser/errors.rs",
     "unic-locale-impl/src/parser/errors.rs",
 ];
@@ -129,17 +156,44 @@ pub struct RecordCfg {
     pub fields: &'static [(&'static str, &'static str, &'static str)],
 }
 
-pub const RECORDS: &[RecordCfg] = &[RecordCfg {
-    rust: "LanguageIdentifier",
-    file: LIB,
-    lean: "LangId",
-    fields: &[
-        ("language", "language", "Option Bytes"),
-        ("script", "script", "Option Bytes"),
-        ("region", "region", "Option Bytes"),
-        ("variants", "variants", "Option (List Bytes)"),
-    ],
-}];
+pub const RECORDS: &[RecordCfg] = &[
+    RecordCfg {
+        rust: "LanguageIdentifier",
+        file: LIB,
+        lean: "LangId",
+        fields: &[
+            ("language", "language", "Option Bytes"),
+            ("script", "script", "Option Bytes"),
+            ("region", "region", "Option Bytes"),
+            ("variants", "variants", "Option (List Bytes)"),
+        ],
+    },
+    RecordCfg {
+        rust: "UnicodeExtensionList",
+        file: UNICODE,
+        lean: "UExt",
+        fields: &[("keywords", "keywords", "AMap"), ("attributes", "attributes", "List Bytes")],
+    },
+    RecordCfg {
+        rust: "TransformExtensionList",
+        file: TRANSFORM,
+        lean: "TExt",
+        fields: &[("tlang", "tlang", "Option LangId"), ("tfields", "tfields", "AMap")],
+    },
+    // `other` is not modelled (Lean field "-"): no API writes it, and every use of it is refused
+    RecordCfg {
+        rust: "ExtensionsMap",
+        file: EXTMOD,
+        lean: "ExtMap",
+        fields: &[("unicode", "unicode", "UExt"), ("transform", "transform", "TExt"), ("other", "-", "-"), ("private", "priv", "List Bytes")],
+    },
+    RecordCfg {
+        rust: "Locale",
+        file: LOCLIB,
+        lean: "Locale",
+        fields: &[("id", "id", "LangId"), ("extensions", "ext", "ExtMap")],
+    },
+];
 
 /// A Rust enum that the model represents by a Lean inductive.  A payload (`Other(char)`) is
 /// *dropped* by the model; the translator still requires the payload expression to be pure.
@@ -166,5 +220,10 @@ pub const ERROR_VARIANTS: &[(&str, &str)] = &[
 ];
 
 /// Transparent one-field tuple structs (`struct Script(TinyStr4)`): the file each is read from.
-pub const NEWTYPES: &[(&str, &str)] =
-    &[("Language", LANG), ("Script", SCRIPT), ("Region", REGION), ("Variant", VARIANT)];
+pub const NEWTYPES: &[(&str, &str)] = &[
+    ("Language", LANG),
+    ("Script", SCRIPT),
+    ("Region", REGION),
+    ("Variant", VARIANT),
+    ("PrivateExtensionList", PRIVATE),
+];
